@@ -27,10 +27,10 @@ claim("C13", "5/C13", "TLA+ DictLike predicate; TLC invariant DictIffInv over di
       "For every object occurrence in the samples TLC checks 'typed as mapping iff DictLike' on the model for all bounded inputs x option environments and on every recorded real result.", INFER_NOTE)
 
 claim("C05", "5/C05", "TLA+ closure-loop state machine model-checked for all similarity relations (safety + liveness) with TLC; each relation replayed on merge_models via a table comparator; traces validated by TLC (Components, pointer consistency)",
-      "TLC proves on the model that the group-closure loop terminates with exactly the connected components for every relation on <=6 models; every relation, comparator boundary cases and random inputs are run through the real merge_models and TLC recomputes similarity, components, field unions, untouched models and pointer bookkeeping from the logged graphs.",
+      "TLC proves on the model that the group-closure loop terminates with exactly the connected components for every relation on <=6 models and that the graph traversal which replaced it in the code gives the same groups in the same order; every relation, comparator boundary cases and random inputs are run through the real merge_models and TLC recomputes similarity, components, field unions, untouched models and pointer bookkeeping from the logged graphs.",
       INFER_NOTE)
 claim("C09", "5/C09", "TLA+ registry state machine (StrTypes) model-checked with TLC; TLC-enumerated string grammar and registry op sequences replayed on the real registry/parsers; traces validated by TLC (first-match, covering, round trip)",
-      "Detection order, covering of resolve() and disabled types are TLC invariants of the registry state machine; the real registry is driven through every enumerated operation sequence and the real parsers over the enumerated grammar; TLC checks first-match / covering / round-trip clauses on the logged tables. The round-trip clause is an equality of two logged values (model contributes only the grammar and protocol).",
+      "Detection order, covering of resolve(), disabled / removed types (also after repeated registration) are TLC invariants of the registry state machine; the real registry is driven through every enumerated operation sequence and the real parsers over the enumerated grammar; TLC checks first-match / covering / round-trip clauses on the logged tables. The round-trip clause is an equality of two logged values (model contributes only the grammar and protocol).",
       INFER_NOTE)
 
 MOD_NOTE = ("Trusted: TLC 1.8.0 + CommunityModules; harness/loadmod.py (exec of the emitted text, framework introspection, projection of typing objects "
@@ -46,12 +46,12 @@ claim("C11", "5/C11", "TLA+ predicates Injective / Recoverable / class-name clau
       "Per emitted class TLC checks that distinct keys gave distinct fields and that the recovered JSON keys (pydantic alias / original-name metadata) are exactly the model's keys, for key sets over a wide alphabet; out-of-domain key sets are evaluated under separate clause names and matched against known_findings.json.", MOD_NOTE)
 claim("C12", "5/C12", "flat and nested renderings of the same input loaded and compared by TLC (ClassTable equality, once, root-first, placement under the referrer)",
       "Each tree-shaped input is rendered in both layouts; TLC checks each model emitted exactly once per layout, root first in flat, every nested class placed inside a class that references it, and equal class tables (fields, canonical annotations, defaults).", MOD_NOTE)
-claim("C18", "5/C18", "TLA+ converter-path semantics (HasPath, ExpectedP) evaluated by TLC against instances constructed from the samples",
+claim("C18", "5/C18", "TLA+ converter-path semantics (Render!HasPath, ExpectedP) + transcription of get_string_field_paths / _process_string_field_value (Conv.tla) model-checked on every type shape (MC_Conv) and replayed on the real functions; TLC evaluates instances constructed from the samples",
       "Generated attrs/dataclass classes are instantiated from each sample; TLC computes from the inferred field type which leaves must be converted (single pseudo-typed leaf under Optional/List/Dict) and compares the instance's projected values with the expected ones (converted via the logged parse table, None kept, others untouched).", MOD_NOTE)
 
 CLI_NOTE = ("Trusted: TLC 1.8.0; harness/record.py (run-time wrappers on file loaders, validate, set_args, generate, generate_code, open, write, print; "
             "guard J2M_VERIF) and harness/drive_cli.py (materialisation of plans as files + argv, the option table Opts(argv), library-side rendering); "
-            "-m arguments are loaded before -l arguments (modelled as the code does it and stated in DESIGN.md).")
+            "arguments are loaded in command-line order (-m and -l alike), as C16 states; subprocess runs get a strict UTF-8 stdout.")
 claim("C16", "5/C16", "TLA+ state machine of the CLI process (Cli.tla) model-checked with TLC (Assembled); TLC-enumerated plans materialised and run through the real main(); recorded event traces validated against Cli.tla by TLC",
       "Every fault-free plan (splits of the samples over files, lookups, repeated -m, -l, same file with two lookups) is run for real; TLC checks that each generate() call received exactly Assemble(plan) and that stdout / the -o file (after the header) equal the library pipeline's text for the same samples and mapped options, in-process and as an OS subprocess.", CLI_NOTE)
 claim("C17", "5/C17", "TLA+ state machine of the CLI process with an explicit fault choice, model-checked with TLC (Atomic, Reports, Complete, OnlyWriteAfterRender, termination); every plan executed for real and its recorded trace validated against the state machine by TLC",
@@ -68,7 +68,7 @@ claim("C06", "5/C06", "2-safety by self-composition in TLA+ (Order.tla: two runs
 claim("C14", "5/C14", "TLA+ state machine of the hidden process state (Session.tla: context save/restore around renders, failing renders) model-checked over all call histories; histories replayed in one process and validated against the state machine by TLC",
       "TLC enumerates every history of <=4 calls (nested DAG / tree renders, renders failing after 1 or 2 context reads, re-renders of an earlier registry for another framework and layout) and checks CtxRestored/SoloEq; each history is replayed in one process, every context read and exit is recorded, and TLC checks that each call saw only its own context, restored it, left the default registry alone and produced the text a fresh process produces.", SES_NOTE)
 claim("C15", "5/C15", "TLA+ state machine with threads (Session.tla) model-checked for every interleaving (thread-local context: SoloEq; shared-context variant refuted); TLC-enumerated interleavings forced on real threads by a cooperative scheduler; traces validated against the state machine by TLC",
-      "Every interleaving of two (thorough: three) threads is explored on the model; each enumerated schedule is imposed on real threads at the spec's yield points and TLC follows the recorded events action by action (drift 0) while checking that every read saw the thread's own context and every output equals the solo output; plus free-running 2-8 threads under a 1e-6 switch interval and a call from a fresh worker thread.", SES_NOTE)
+      "Every interleaving of two (thorough: three) threads, and of two whole pipelines with their build steps (merge_models, every pair comparison, every group merge), is explored on the model; each enumerated schedule is imposed on real threads at the spec's yield points and TLC follows the recorded events action by action (drift 0) while checking that every read saw the thread's own context and every output equals the solo output; plus free-running 2-8 threads under a 1e-6 switch interval and a call from a fresh worker thread.", SES_NOTE)
 
 checks = []
 for pid, (ref, tech, text, note) in sorted(CLAIMS.items()):
